@@ -114,6 +114,23 @@ class SharedFlow:
                     src = it
                     if isinstance(it, ast.Call) and isinstance(it.func, ast.Attribute) and it.func.attr in ("values", "items") and not it.args:
                         src = it.func.value
+                    # enumerate(X) / zip(A, B): the loop variables at the matching positions are elements of X / A / B
+                    if isinstance(it, ast.Call) and isinstance(it.func, ast.Name) and it.func.id in ("enumerate", "zip") and isinstance(n.target, (ast.Tuple, ast.List)):
+                        srcs = ([None] + list(it.args[:1])) if it.func.id == "enumerate" else list(it.args)
+                        for tv, sv in zip(n.target.elts, srcs):
+                            if sv is None:
+                                continue
+                            if isinstance(sv, ast.Call) and isinstance(sv.func, ast.Name) and sv.func.id in ("list", "reversed", "sorted", "tuple") and sv.args:
+                                sv = sv.args[0]
+                            dd = self.rooted(f, sv, al)
+                            if dd is not None:
+                                for x in ast.walk(tv):
+                                    if isinstance(x, ast.Name) and x.id not in al:
+                                        al[x.id] = dd[len(FRESH):] if dd.startswith(FRESH) else "element of " + dd
+                                        changed = True
+                        continue
+                    if isinstance(src, ast.Call) and isinstance(src.func, ast.Name) and src.func.id in ("list", "reversed", "sorted", "tuple") and src.args:
+                        src = src.args[0]
                     d = self.rooted(f, src, al)
                     if d is not None:
                         for x in ast.walk(n.target):
